@@ -5,7 +5,7 @@ import udp_common as U
 META = {
     'engine': 'frame',
     'technique': 'Coq proofs that OOB framing round-trips and leaves FEC encoder, core and decoder untouched; differential replay of real sessions with interleaved OOB traffic',
-    'level_text': 'Machine-checked on the transcribed pipeline: an OOB payload with 4+len <= mtu round-trips through frame/unframe/demultiplexer to exactly the same bytes for every cipher class; SendOOB errors iff there is no FEC encoder or 4+len > mtu and GetOOBMaxSize = mtu-4 (0 without FEC); encodeOOB returns the encoder untouched, so the data/parity packet sequence with OOB requests interleaved anywhere equals the sequence without them; an 0xF3 packet changes neither core nor decoder nor autotune state. Tied to the code by real client/listener sessions over a lossy in-memory network with OOB messages of sizes 0,1,max-1,max,max+1 interleaved with Write traffic in both directions (floods included), one- and two-sided handlers, three sessions on one listener; handler arguments, stream content and the FEC id sequence are compared, and two real fecEncoders (with and without interleaved OOB) are compared packet for packet.',
+    'level_text': 'Machine-checked on the transcribed pipeline: an OOB payload with 4+len <= mtu round-trips through frame/unframe/demultiplexer to exactly the same bytes for every cipher class; SendOOB errors iff there is no FEC encoder or 4+len > mtu and GetOOBMaxSize = mtu-4 (0 without FEC); encodeOOB returns the encoder untouched, so the data/parity packet sequence with OOB requests interleaved anywhere equals the sequence without them; an 0xF3 packet changes neither core nor decoder nor autotune state. Tied to the code by real client/listener sessions over a lossy in-memory network with OOB messages of sizes 0,1,max-1,max,max+1 interleaved with Write traffic in both directions (floods included), one- and two-sided handlers, three sessions on one listener; handler arguments, stream content and the FEC id sequence are compared, and two real fecEncoders (with and without interleaved OOB) are compared packet for packet; over real loopback sockets: two conversations on one source address, every size 0..max in both directions (each must arrive within three attempts on an idle path), a session without FEC refuses, and a handler that closes its own session stalls nobody.',
     'level_note': "Trusted: as for C09. 'Or not at all' for corrupted OOB datagrams is the integrity gate of C06; listener routing is C11's demultiplexer (monitored here with three sessions, not proved here). OOB delivery is best effort by design (dropped when the post-processing queue is full)."}
 
 FILES = ["frame_test.go"]
